@@ -85,11 +85,15 @@ impl TraitCodegen<'_> {
         let params = trait_generics.trait_params();
         let where_clause = trait_generics.trait_where_clause();
 
+        // For a hand-written (entraited) trait every attribute the user wrote stays on the trait.
+        // For generated traits only `async_trait` / `automock` are taken over from the fn/mod/impl block.
+        let keep_all_attributes = matches!(fn_input_mode, FnInputMode::RawTrait(_));
         let trait_sub_attributes = self.sub_attributes.iter().filter(|attr| {
-            matches!(
-                attr,
-                SubAttribute::AsyncTrait(_) | SubAttribute::Automock(_)
-            )
+            keep_all_attributes
+                || matches!(
+                    attr,
+                    SubAttribute::AsyncTrait(_) | SubAttribute::Automock(_)
+                )
         });
 
         Ok(quote_spanned! { span=>
